@@ -398,13 +398,33 @@ def check_curve(prog: Program, rep, rule: str) -> None:
         t2 = ev.exec_block(loop.body, st2, ctx)
     except Undecided as exc:
         raise AnalysisError(f'calculate_curve (loop body): {exc}') from exc
+    i = A.sym('i')
     if not isinstance(t2, Leaf) or t2.kind != 'fall':
-        raise AnalysisError('calculate_curve: the loop body branches; entry index can no longer be derived')
+        # the body branches: every alternative must append one entry, and each such entry is an obligation of its own -
+        # under whatever condition it is built, it must pass through nodes i-1, i, i+1
+        alts = [lf for _p, lf in leaves(t2) if lf.kind == 'fall']
+        others = [lf for _p, lf in leaves(t2) if lf.kind not in ('fall', 'raise')]
+        if not alts or others:
+            raise AnalysisError('calculate_curve: the loop body branches and leaves the iteration early; entry index can no '
+                                'longer be derived')
+        for lf in alts:
+            app_ = lf.state.heap[out.oid]['$items']
+            if len(app_) != 1 or not isinstance(app_[0], Inst):
+                raise AnalysisError(f'calculate_curve: {len(app_)} entries appended on one path of an iteration')
+            ent_ = lf.state.heap[app_[0].oid]
+            bad_ = [off for off in (-1, 0, 1)
+                    if not (_poly_at(ent_, M(i + off)) is not None and _poly_at(ent_, M(i + off)).equals(Y(i + off)))]
+            if bad_:
+                v_ = _poly_at(ent_, M(i + bad_[0]))
+                rep.fail(rule, tc.path, loop.lineno, cc.qualname, 'loop-entry-alternative',
+                         f'one alternative of the loop body builds, for middle node i, an entry that does not pass through node '
+                         f'i{bad_[0]:+d} (value there: {v_!r}'[:300] + '): the drag used at a tabulated Mach number is then not the '
+                         'tabulated value, and between nodes not the parabola through both neighbours')
+        t2 = alts[0]
     appended = t2.state.heap[out.oid]['$items']
     if len(appended) != 1 or not isinstance(appended[0], Inst):
         raise AnalysisError(f'calculate_curve: {len(appended)} entries appended per iteration')
     ent = t2.state.heap[appended[0].oid]
-    i = A.sym('i')
     start_ok = isinstance(start, Scalar) and start.rf.equals(A.rf(1))
     bad = [off for off in (-1, 0, 1)
            if not (_poly_at(ent, M(i + off)) is not None and _poly_at(ent, M(i + off)).equals(Y(i + off)))]
@@ -708,6 +728,50 @@ def check_bc(prog: Program, rep, rule: str) -> None:
         raise AnalysisError('_init_trajectory has no non-raising path')
 
 
+def check_point_writers(prog: Program, rep, rule: str) -> None:
+    """Who may write a table point.  The fields of a DragDataPoint (Mach, CD) are stored at construction; the points of a
+    model's table are shared - with the solver, which keeps the table for the whole shot, with every other model built
+    from the same list - so a later store changes the tabulated value another computation reads.  Decided by the effect
+    summaries (engine C) of every function of the package: a store into a field called like a point's field whose
+    receiver may be an object the function was handed (a parameter, something reachable from self, a global) is refuted;
+    a store into an object the function - or a callee, through its summarised return shape - has just built is
+    construction.  A class that has a field of that name itself (BCPoint.Mach) writes its own."""
+    from ..effects import Effects
+    ddp = prog.cls(C.M_DM, 'DragDataPoint')
+    fields = {a for a in ddp.attrs} & {'Mach', 'CD'} or {'Mach', 'CD'}
+    eng = Effects(prog)
+    n_f = n_bad = 0
+    for fq, summ in eng.summaries.items():
+        f = eng.funcs.get(fq) if hasattr(eng, 'funcs') else None
+        for (origin, fld), e in summ.effects.items():
+            if fld not in fields or origin[0] in ('fresh', 'const'):
+                continue
+            if e.module.name.startswith('py_ballisticcalc.visualize'):
+                continue
+            owner = None
+            for m_ in prog.modules.values():
+                for ci in m_.classes.values():
+                    for meth in ci.methods.values():
+                        if meth.fq == fq:
+                            owner = ci
+            if origin[0] == 'self' and owner is not None and (owner is ddp or fld in owner.attrs
+                                                              or any(s_.attr == fld and s_.func is not None and s_.func.cls is owner
+                                                                     and isinstance(s_.base, ast.Name) and s_.base.id == 'self'
+                                                                     for s_ in C.iter_attr_stores(prog))):
+                continue
+            n_bad += 1
+            rep.fail(rule, e.module.path, e.line, e.func, f'point-store:{fld}',
+                     f'`{e.text[:60]}` stores the field {fld} of a table point that {e.func} did not build (it may be reached from '
+                     f'{origin}): the points of a drag table are shared with the solver and with every model built from the same '
+                     f'list, so the tabulated value a later computation reads is no longer the one given'
+                     + (f' [via {" -> ".join(e.chain)}]' if e.chain else ''))
+        n_f += 1
+    if n_f < 100:
+        raise AnalysisError(f'effect summaries of only {n_f} functions: the package is not read any more')
+    if not n_bad:
+        rep.ok(rule, 'py_ballisticcalc', f'no function of the package ({n_f} summaries) stores Mach / CD of a point it did not build')
+
+
 def run(prog: Program, rep, thorough: bool) -> None:
     A.reset()
     rep.rule('C09.R1', 'shipped tables literal, ascending from 0, equal to the reference, never written', 9 + 2)
@@ -715,6 +779,7 @@ def run(prog: Program, rep, thorough: bool) -> None:
     rep.rule('C09.R3', 'BC definition and wiring', 5)
     rep.rule('C09.R4', 'the selector returns an entry whose nodes include both neighbours of the query (proof per return site)', 1)
     check_tables(prog, rep, 'C09.R1')
+    check_point_writers(prog, rep, 'C09.R1')
     check_curve(prog, rep, 'C09.R2')
     check_bc(prog, rep, 'C09.R3')
     check_mach_list(prog, rep, 'C09.R3')
